@@ -40,6 +40,10 @@ fn main() {
             let m2: rosu_map::Beatmap = rosu_map::from_str(&enc).expect("decode2");
             println!("objects {} timing {} difficulty {} effect {} sample {}", m2.hit_objects.len(), m2.control_points.timing_points.len(),
                 m2.control_points.difficulty_points.len(), m2.control_points.effect_points.len(), m2.control_points.sample_points.len());
+            if std::env::var("RVMON_DEBUG").is_ok() {
+                println!("m1 control points: {:#?}", m.control_points);
+                println!("m2 control points: {:#?}", m2.control_points);
+            }
             for ev in obs::trlog::take() {
                 println!("EVENT {ev}");
             }
